@@ -87,9 +87,14 @@ def run(ctx):
     fl = prog.fn(DN + "::from_labels")
     flr = A.Resolver(fl)
     flc = A.Conds(fl, flr)
-    names = {v: k for k, v in fl.names.items()}
-    blank, ln_ = names.get("blank_label"), names.get("len")
-    ctx.check(blank is not None and ln_ is not None, "C16.3", "from_labels:variables", "found blank_label / len", "from_labels lost its blank_label / len variables", fl.loc())
+    # the two registers by role: the bool that is set when the empty (root) label is met, and the usize stored as `len`
+    def _one(xs):
+        xs = sorted(set(x for x in xs if x is not None))
+        return xs[0] if len(xs) == 1 else None
+    blank = _one(l for l in range(len(fl.locals)) if fl.local_ty(l) == "bool" and fl.locals[l].get("user")
+                 and len([d for d in fl.defs().get(l, []) if d[2] != "partial"]) >= 2)
+    ln_ = _one(A.root_local(fl, o) for b, i, st in A.aggregates(fl, DN) for fname, o in zip(st["rv"].get("fields", []), st["rv"].get("ops", [])) if fname == "len")
+    ctx.check(blank is not None and ln_ is not None, "C16.3", "from_labels:variables", "found the root-label flag and the length accumulator", "from_labels lost its root-label flag / length accumulator", fl.loc())
     for b, i, st in A.aggregates(fl, DN):
         ok1, _ = flc.guarded(b, lambda fc: fc[0] == "ltruth" and fc[1] == blank and fc[2] is True)
         ok2, _ = flc.guarded(b, A.cmp_fact({"Le"}, lambda e: True, is_const("DOMAINNAME_MAX_LEN")))
@@ -140,8 +145,11 @@ def run(ctx):
     wd = prog.fn(WIRE_DN)
     wr = A.Resolver(wd)
     wc = A.Conds(wd, wr)
-    wn = {v: k for k, v in wd.names.items()}
-    wl = wn.get("len")
+    wl = None
+    for b_, i_, st_ in A.aggregates(wd, DN):
+        for fname, o in zip(st_["rv"].get("fields", []), st_["rv"].get("ops", [])):
+            if fname == "len":
+                wl = A.root_local(wd, o)       # the accumulator stored as the name's `len`, whatever it is called
     kinds = set()
     if wl is not None:
         for d in wd.defs().get(wl, []):
